@@ -46,7 +46,8 @@ def addr(rnd, tab, write=False):
         ty, fno = rnd.choice([("N", 7), ("B", 3), ("B", 254), ("S", 2), ("N", 10)])
         n = len(tab[str(fno)]["words"])
         e, b = rnd.choice([0, n - 1, rnd.randint(0, n - 1)]), rnd.choice([0, 1, 2, 7, 8, 14, 15, rnd.randint(0, 15)])
-        s = ("S:%d/%d" % (e, b)) if ty == "S" else "%s%d:%d/%d" % (ty, fno, e, b)
+        bt = "%02d" % b if rnd.random() < 0.2 else "%d" % b         # the grammar takes one or two digits: 7 and 07 are the same bit
+        s = ("S:%d/%s" % (e, bt)) if ty == "S" else "%s%d:%d/%s" % (ty, fno, e, bt)
         it.update({"ftype": ty, "file": fno, "elem": e, "bit": b})
     elif k == 6:                                            # binary-file bit form B3/n
         fno = rnd.choice([3, 254])
